@@ -22,6 +22,7 @@ import (
 	"strings"
 	"sync"
 	"sync/atomic"
+	"syscall"
 	"time"
 
 	"github.com/go-logr/logr"
@@ -660,11 +661,12 @@ type backend struct {
 }
 
 type farm struct {
-	mu      sync.Mutex
-	modes   []bool
-	fetches int
-	base    int // fetches at the start of the current scenario
-	bs      []*backend
+	mu          sync.Mutex
+	modes       []bool
+	fetches     int
+	base        int // fetches at the start of the current scenario
+	bs          []*backend
+	dialTimeout time.Duration
 }
 
 func readFrame(c net.Conn) ([]byte, error) {
@@ -790,7 +792,7 @@ func (f *farm) ping(sm *lite.StrategyManager, rg uint64, protocol int, ttl time.
 	hctx.Payload = []byte(pl.String())
 	sctx := &proto.PacketContext{Direction: proto.ServerBound, Protocol: proto.Protocol(protocol), PacketID: 0,
 		Packet: &packet.StatusRequest{}, Payload: []byte{0}}
-	_, res, err := lite.ResolveStatusResponseWithGeneration(2*time.Second, rg, []config.Route{route}, logr.Discard(), client, hs, hctx, sctx, sm)
+	_, res, err := lite.ResolveStatusResponseWithGeneration(f.dialTimeout, rg, []config.Route{route}, logr.Discard(), client, hs, hctx, sctx, sm)
 	if err != nil {
 		return "error"
 	}
@@ -826,6 +828,7 @@ type pingSpec struct {
 func partB(run *hx.Run) {
 	const nb = 4
 	f := newFarm(nb)
+	f.dialTimeout = 2 * time.Second
 	sm := lite.NewStrategyManager()
 	r := run.Rng
 	total := func() int { f.mu.Lock(); defer f.mu.Unlock(); return f.fetches }
@@ -944,8 +947,11 @@ func partB(run *hx.Run) {
 			}
 		}
 	}
+	partBTimeouts(run, f, sm, nb)
 	for _, b := range f.bs {
-		b.ln.Close()
+		if b.ln != nil {
+			b.ln.Close()
+		}
 	}
 }
 
@@ -1097,6 +1103,216 @@ func partRace(run *hx.Run) {
 		out := hx.Guard(60*time.Second, func() string { return raceStress(r, n) })
 		run.Case("R:stress", fmt.Sprintf("race stress %d %d", r, n), out)
 	}
+}
+
+// ---------- failure classes: a backend whose dial TIMES OUT, a backend that REFUSES ----------
+
+// blackhole returns a loopback address whose accept queue is full and never drained: a connect is neither accepted nor
+// refused, the dial runs into its timeout (an error of the context.DeadlineExceeded class).  ok=false if this kernel
+// does not let us build one.
+func blackhole() (addr string, release func(), ok bool) {
+	fd, err := syscall.Socket(syscall.AF_INET, syscall.SOCK_STREAM, 0)
+	if err != nil {
+		return "", func() {}, false
+	}
+	var held []net.Conn
+	release = func() {
+		for _, c := range held {
+			c.Close()
+		}
+		syscall.Close(fd)
+	}
+	if err = syscall.Bind(fd, &syscall.SockaddrInet4{Addr: [4]byte{127, 0, 0, 1}}); err != nil {
+		release()
+		return "", func() {}, false
+	}
+	if err = syscall.Listen(fd, 0); err != nil {
+		release()
+		return "", func() {}, false
+	}
+	sa, err := syscall.Getsockname(fd)
+	if err != nil {
+		release()
+		return "", func() {}, false
+	}
+	addr = fmt.Sprintf("127.0.0.1:%d", sa.(*syscall.SockaddrInet4).Port)
+	for i := 0; i < 64; i++ {
+		c, err := net.DialTimeout("tcp", addr, 400*time.Millisecond)
+		if err != nil {
+			var ne net.Error
+			if errors.As(err, &ne) && ne.Timeout() {
+				// confirm: a second connect hangs as well
+				if c2, err2 := net.DialTimeout("tcp", addr, 400*time.Millisecond); err2 != nil {
+					return addr, release, true
+				} else {
+					held = append(held, c2)
+					continue
+				}
+			}
+			release()
+			return "", func() {}, false
+		}
+		held = append(held, c)
+	}
+	release()
+	return "", func() {}, false
+}
+
+type bop struct {
+	kind string // ping, mode, preset
+	p    pingSpec
+	ttl  int
+	fb   bool
+	i    int
+	up   bool
+}
+
+type bline struct{ class, op, out string }
+
+// runTimeoutScenario executes one scenario with the given dial budget.  suspicious: a ping ended without any backend's
+// status although a listed listener is up - on correct code that can only be a dial that was too slow for the budget
+// (machine load) or a failure cached earlier in the scenario; the caller then repeats the scenario alone with a much
+// larger budget and only that run counts.
+func runTimeoutScenario(f *farm, sm *lite.StrategyManager, nb int, ops []bop, budget time.Duration) (lines []bline, suspicious bool) {
+	f.dialTimeout = budget
+	lite.ResetPingCache()
+	f.mu.Lock()
+	for i := range f.modes {
+		f.modes[i] = true
+	}
+	f.base = f.fetches
+	base := f.fetches
+	f.mu.Unlock()
+	lines = append(lines, bline{"T:new", fmt.Sprintf("pnew %d", nb), "ok"})
+	for _, o := range ops {
+		switch o.kind {
+		case "mode":
+			f.mu.Lock()
+			f.modes[o.i] = o.up
+			f.mu.Unlock()
+			u := 0
+			if o.up {
+				u = 1
+			}
+			lines = append(lines, bline{"T:mode", fmt.Sprintf("mode %d %d", o.i, u), "ok"})
+		case "preset":
+			lite.ResetPingCache()
+			lines = append(lines, bline{"T:reset", "preset", "ok"})
+		case "ping":
+			cs := make([]string, len(o.p.cands))
+			for i, c := range o.p.cands {
+				cs[i] = strconv.Itoa(c)
+			}
+			fbi := 0
+			if o.fb {
+				fbi = 1
+			}
+			op := fmt.Sprintf("ping %d %d %d %d %s", o.p.rg, o.p.proto, o.ttl, fbi, strings.Join(cs, ","))
+			out := hx.Guard(120*time.Second, func() string {
+				return f.ping(sm, o.p.rg, o.p.proto, time.Duration(o.ttl)*time.Millisecond, o.fb, o.p.cands)
+			})
+			if !strings.HasPrefix(out, "backend") {
+				f.mu.Lock()
+				for _, c := range o.p.cands {
+					if c < nb && f.modes[c] {
+						suspicious = true
+					}
+				}
+				f.mu.Unlock()
+			}
+			f.mu.Lock()
+			tot := f.fetches - base
+			f.mu.Unlock()
+			lines = append(lines, bline{"T:ping", op, fmt.Sprintf("%s | f=%d", out, tot)})
+		}
+	}
+	return lines, suspicious
+}
+
+func partBTimeouts(run *hx.Run, f *farm, sm *lite.StrategyManager, nb int) {
+	bh, release, ok := blackhole()
+	defer release()
+	if !ok {
+		run.Extra["blackhole"] = "unavailable"
+		return
+	}
+	run.Extra["blackhole"] = "ok"
+	// candidate nb: black hole (dial times out); candidate nb+1: closed privileged port (dial refused)
+	f.bs = append(f.bs, &backend{idx: nb, addr: bh}, &backend{idx: nb + 1, addr: "127.0.0.1:1"})
+	defer func() { f.bs = f.bs[:nb] }()
+	const long = 3600000
+	T, R := nb, nb+1
+	ping := func(rg uint64, proto, ttl int, fb bool, cands ...int) bop {
+		return bop{kind: "ping", p: pingSpec{rg, proto, cands}, ttl: ttl, fb: fb}
+	}
+	mode := func(i int, up bool) bop { return bop{kind: "mode", i: i, up: up} }
+	scenarios := [][]bop{
+		// a healthy backend behind one whose dial timed out must be asked (cached route; the timeout is then cached)
+		{ping(0, 765, long, true, T, 0), ping(0, 765, long, true, T, 0), ping(0, 765, long, false, T, 1)},
+		// the same without a ping cache
+		{ping(0, 765, -1, true, T, 1), ping(0, 765, -1, false, R, T, 2)},
+		// refused, timed out, then healthy; then the healthy one goes down: only now the fallback
+		{ping(1, 47, long, true, R, T, 2), mode(2, false), {kind: "preset"}, ping(1, 47, long, true, T, 2), ping(1, 47, long, false, T, 2)},
+		// nothing but failures: fallback / error
+		{ping(0, 765, long, true, T), ping(0, 765, long, false, T, R), ping(0, 765, -1, true, R)},
+	}
+	r := run.Rng
+	for s := 0; s < run.Scale(4, 12); s++ {
+		var ops []bop
+		for i, n := 0, 3+r.Intn(4); i < n; i++ {
+			switch x := r.Intn(8); {
+			case x < 6:
+				pool := []int{0, 1, 2, 3, T, R, T}
+				for j := len(pool) - 1; j > 0; j-- {
+					t := r.Intn(j + 1)
+					pool[j], pool[t] = pool[t], pool[j]
+				}
+				var cands []int
+				seen := map[int]bool{}
+				for _, c := range pool {
+					if !seen[c] && len(cands) < 1+r.Intn(3)+1 {
+						seen[c] = true
+						cands = append(cands, c)
+					}
+				}
+				if r.Chance(1, 2) { // a failing backend of the timeout / refused class in front
+					front := hx.Pick(r, []int{T, T, R})
+					rest := []int{front}
+					for _, c := range cands {
+						if c != front {
+							rest = append(rest, c)
+						}
+					}
+					cands = rest
+				}
+				ttl := long
+				if r.Chance(1, 3) {
+					ttl = -1
+				}
+				ops = append(ops, ping(uint64(r.Intn(2)), hx.Pick(r, []int{765, 47}), ttl, r.Bool(), cands...))
+			case x < 7:
+				ops = append(ops, mode(r.Intn(nb), r.Chance(1, 3)))
+			default:
+				ops = append(ops, bop{kind: "preset"})
+			}
+		}
+		scenarios = append(scenarios, ops)
+	}
+	reruns := 0
+	for _, ops := range scenarios {
+		lines, suspicious := runTimeoutScenario(f, sm, nb, ops, 300*time.Millisecond)
+		if suspicious {
+			// decide only on a solitary re-run with a budget no loaded machine exceeds for a loopback connect
+			reruns++
+			lines, _ = runTimeoutScenario(f, sm, nb, ops, 5*time.Second)
+		}
+		for _, l := range lines {
+			run.Case(l.class, l.op, l.out)
+		}
+	}
+	run.Extra["timeout_scenarios"] = len(scenarios)
+	run.Extra["timeout_reruns"] = reruns
+	f.dialTimeout = 2 * time.Second
 }
 
 func main() {
